@@ -85,7 +85,7 @@ func (e *Engine) doRecv(c *ChanObj, elemT types.Type) (Value, bool) {
 	c.recvs++
 	e.tracef("recv %s ok=%v", c, ok)
 	if c.onRecv.Fn != nil {
-		e.callValue(c.onRecv, v, e.tb.Bool(ok))
+		e.callValue(c.onRecv, IfaceV{T: elemT, V: v}, e.tb.Bool(ok))
 	}
 	return v, ok
 }
@@ -98,7 +98,7 @@ func (e *Engine) doSend(c *ChanObj, v Value, pos string) {
 	e.tracef("send %s", c)
 	// the observer runs at the instant of the hand-over, before bookkeeping
 	if c.onSend.Fn != nil {
-		e.callValue(c.onSend, v)
+		e.callValue(c.onSend, IfaceV{T: c.elemT, V: v})
 	}
 	switch {
 	case c.waiters > 0:
